@@ -44,6 +44,10 @@ def base_dir() -> Path:
     if _base is None:
         root = os.environ.get('WN_VERIF_SCRATCH') or tempfile.gettempdir()
         _base = Path(tempfile.mkdtemp(prefix='wnw-', dir=root))
+        # a private temporary directory: what the library leaves behind there
+        # is observable, and parallel workers do not see each other's files
+        (_base / 'tmp').mkdir()
+        tempfile.tempdir = str(_base / 'tmp')
     return _base
 
 
